@@ -571,11 +571,23 @@ func predCLI(c Case) (r Result) {
 		lib = libSearch(expr, doc)
 	}
 	_, cerr, _ := libCompile(expr)
+	// "for an invalid expression": whether a text is an expression is the grammar's decision,
+	// not the decision of the parser jpgo happens to be linked with. A text the reference
+	// grammar rejects must fail in jpgo as well, unless the library accepts it for a reason
+	// listed as an open finding of C04 (those are reported there, once).
+	invalidByGrammar := false
+	if toks, st, _ := ref.Lex(expr); st == ref.LexError {
+		invalidByGrammar = true
+	} else if st == ref.LexOK && !ref.IsSentence(ref.Kinds(toks)) {
+		invalidByGrammar = cerr != nil || classifyAcceptedNonSentence(toks) == ""
+	}
 	expectOK := false
 	reason := ""
 	switch {
 	case cerr != nil:
 		reason = "syntax-error"
+	case invalidByGrammar:
+		reason = "invalid-expression"
 	case jerr != nil:
 		reason = "invalid-json-input"
 	default:
@@ -666,6 +678,9 @@ func TestC19(t *testing.T) {
 			expr = errSeeds[rapid.IntRange(0, len(errSeeds)-1).Draw(t, "seed")].expr
 		case 3:
 			expr = []string{"avg(`[]`)", "to_number('inf')", "sum(`[1e308,1e308]`)", "-1", "-", "--", "-ast", "-input", "", " ", "a\nb", "'é'", "\"é\"", "@", "`\"x\"`"}[rapid.IntRange(0, 14).Draw(t, "special")]
+		case 5:
+			// texts that no lexer may accept, alone and inside a sentence
+			expr = fmt.Sprintf([]string{"%s", "a.b || %s", "%s | c", "[%s]", "f(%s)", "a[?%s]"}[uni(t, 6, "lexCtx")], lexBroken[uni(t, len(lexBroken), "lexBroken")])
 		case 4:
 			if rapid.Bool().Draw(t, "edgeSpace") {
 				// a valid expression with a character at its edge that Unicode, but not
